@@ -93,6 +93,8 @@ JudgeGraph(e, pre) ==
        THEN Expect(IF e.act.m = "to_string" THEN TextOK(e.ret.v, pre.gs[1])
                    ELSE DiffTextOK(e.ret.v, pre.gs[e.act.args[1] + 1], pre.gs[1]),
                    subj, "EXT", "the text does not list exactly the nodes / edges / changes of the model (lines, counts)")
+       ELSE IF e.act.m = "filter"       \* the node SET is specified (how often a node is listed for a repeated state is not)
+       THEN Expect(e.post = r.post /\ e.ret.t = "val" /\ Range(e.ret.v) = Range(r.ret.v), subj, "C18", "the state filter does not return the model's node set")
        ELSE IF ~(e.post = r.post /\ RetEq(e.ret, r.ret)) THEN V("mismatch", subj, "C18", "graphs or return value differ from the model")
        ELSE Expect(\A i \in 1..Len(e.post.gs) : GraphInv(e.post.gs[i]), subj, "C18", "structural invariant G1/G2 broken")
 
@@ -128,7 +130,8 @@ JudgeItem(e) ==
          [] m = "shallow_size" -> RetEq(e.ret, RVal(IF a[1].k = "list" THEN Len(a[1].v) + 1 ELSE 1))
          [] m = "traverse" -> RetEq(e.ret, IF a[2] < Size(a[1]) THEN RSome(Extract(a[1], a[2])) ELSE RNone)
          [] m = "insert" -> RetEq(e.ret, IF a[3] < Size(a[1]) THEN RSome(InsertPt(a[1], a[2], a[3])) ELSE [t |-> "none", v |-> a[1]])
-         [] m = "contains" -> StructFuzzy(a[1]) \/ StructFuzzy(a[2]) \/ RetEq(e.ret, RVal(Position(a[1], a[2])))
+         [] m = "contains" -> StructFuzzy(a[1]) \/ StructFuzzy(a[2]) \/ RetEq(e.ret, RVal(Position(a[1], a[2]))) \/
+                              (e.ret.t = "val" /\ \E k \in 1..Len(AllPositions(a[1], a[2])) : AllPositions(a[1], a[2])[k] = e.ret.v)
          [] m = "container" -> StructFuzzy(a[1]) \/ StructFuzzy(a[2]) \/
                                (LET c == ContainerOf(a[1], a[2]) IN RetEq(e.ret, IF c.found THEN RSome(c.item) ELSE RNone))
          [] m = "substitute" -> StructFuzzy(a[1]) \/ StructFuzzy(a[2]) \/ RetEq(e.ret, RVal(Subst(a[1], a[2], a[3])))
